@@ -58,3 +58,22 @@ JOBS['C11'] = [
      'variants': [{'TMPL': t} for t in range(9)], 'split_depth': 2, 'nslices': {'quick': 4, 'thorough': 16},
      'expect_reach': ['end'], 'timeout': {'quick': 280, 'thorough': 1700}},
 ]
+
+# ---------------------------------------------------------------- C04
+META['C04'] = {
+    'bounds': {'quick': 'line-buffer interface: all histories of K=3 operations from {edit, compound command of 2 edits, undo, redo}, every edit a symbolic range and a symbolic text of <=3 bytes over {a, newline}; ex level: two commands from a menu on a 4-line symbolic buffer, then u u redo',
+               'thorough': 'K=4 at the interface; ex level: all ordered pairs of the command menu'},
+    'outside': 'histories longer than K at the interface; filter commands (need a child process); edit texts longer than 3 bytes',
+    'assumptions': ['a command boundary is a call of lbuf_modified(), as ex_command() and the vi loop make it'],
+}
+JOBS['C04'] = [
+    {'name': 'lbuf_history_text', 'harness': 'c04_hist.c', 'units': ['lbuf', 'sbuf', 'uc'],
+     'defs': {'quick': {'K': 2, 'TL': 3}, 'thorough': {'K': 3, 'TL': 2}},
+     'expect_reach': ['end', 'edit', 'undo', 'undo-at-start', 'redo-at-end'], 'timeout': {'quick': 280, 'thorough': 1700}},
+    {'name': 'ex_steps', 'harness': 'c04_ex.c', 'units': 'ALL',
+     'defs': {'quick': {'PAIRS_DIAGONAL': 1}, 'thorough': {}},
+     'expect_reach': ['end', 'B-changed', 'both-changed'], 'timeout': {'quick': 280, 'thorough': 1700}},
+    {'name': 'lbuf_history_deep', 'harness': 'c04_hist.c', 'units': ['lbuf', 'sbuf', 'uc'],
+     'defs': {'quick': {'K': 3, 'SMALL': 1}, 'thorough': {'K': 4, 'SMALL': 1}},
+     'expect_reach': ['end', 'edit', 'undo', 'redo', 'undo-at-start', 'redo-at-end'], 'timeout': {'quick': 280, 'thorough': 1700}},
+]
